@@ -44,7 +44,7 @@ theorem C02_attempts_bounded {s : Sys} : ReachableWF s → attemptsBounded s.cor
 example : ∃ s, ReachableWF s ∧ writeAttempts s.core.trace 1 = 2 ∧
     acceptedAt s.core.trace 1 = some (0, 240, 1, true) :=
   ⟨_, ⟨[.apiOpen, .run 1 .go, .run 1 .openOk, .envFailWrites 0 true, .apiSend 1 1 240 true,
-        .envLostRan 0, .run 2 .drainErr, .run 2 .go, .run 3 .go, .run 3 .openOk, .run 3 .go],
+        .envLostRan 0, .run 2 .drainErr, .run 2 .go, .run 2 .go, .run 3 .go, .run 3 .openOk, .run 3 .go],
     by decide, rfl⟩, by decide, by decide⟩
 
 end PyAirtouch.Props.C02
